@@ -34,6 +34,7 @@ EXPLANATION = ("a: the action loop is dominated by the true edge of evaluate_con
                "finder keeps the last top-level match; apply_operator maps each token to the matching float operation.")
 FLOORS = {"forward_loops": 2, "evaluators": 6, "operator_variants": 11}
 EXPLANATION += " a (added): the action loop iterates the rule's stored actions, not a copy mutated beforehand, and right-hand expressions are evaluated only inside execute_action (at the moment each action runs). b (added): ConditionGroup::{single,and,or,not,exists,forall} return, on every path, exactly the variant they are named after with their parameters in place."
+EXPLANATION += " e (added, shared with C04.h): the parser's identifier test admits digits after the first character, so a bare field name such as `base2` on a right-hand side is read as a reference and not stored as text."
 
 OP = "types::Operator"
 VALUE = "types::Value"
